@@ -236,7 +236,7 @@ func checkC19(c *Ctx) {
 						if fam == "ed25519" && len(h) >= 1 && !c.thorough() && c.rng.intn(40) != 0 {
 							continue // bcrypt KDF (~80 ms per passphrase try): keep the quick tier short
 						}
-						if c.thorough() && len(h) == 2 && c.rng.intn(map[string]int{"ed25519": 300, "rsa": 10}[fam]) != 0 {
+						if c.thorough() && len(h) == 2 && (fc.neg || c.rng.intn(map[string]int{"ed25519": 300, "rsa": 10}[fam]) != 0) {
 							continue // length 3 is SAMPLED in the thorough tier (exhaustive would take hours of bcrypt)
 						}
 						rec(append(append([]c19Call{}, h...), c19Call{f, a}))
